@@ -9,8 +9,6 @@ import jax.numpy as jnp
 from jax import Array
 from jax.typing import ArrayLike
 
-from jaxley.solver_gate import save_exp
-
 
 class Transform(ABC):
     def __call__(self, x: ArrayLike) -> Array:
@@ -40,7 +38,7 @@ class SigmoidTransform(Transform):
         self.width = upper - lower
 
     def forward(self, x: ArrayLike) -> Array:
-        y = 1.0 / (1.0 + save_exp(-x))
+        y = jax.nn.sigmoid(x)
         return self.lower + self.width * y
 
     def inverse(self, y: ArrayLike) -> Array:
@@ -62,10 +60,12 @@ class SoftplusTransform(Transform):
         self.lower = lower
 
     def forward(self, x: ArrayLike) -> Array:
-        return jnp.log1p(save_exp(x)) + self.lower
+        return jax.nn.softplus(x) + self.lower
 
     def inverse(self, y: ArrayLike) -> Array:
-        return jnp.log(save_exp(y - self.lower) - 1.0)
+        z = y - self.lower
+        # log(exp(z) - 1), written such that it does not overflow for large z.
+        return z + jnp.log(-jnp.expm1(-z))
 
 
 class NegSoftplusTransform(SoftplusTransform):
